@@ -72,10 +72,24 @@ func CatalogSpecs(seed int64) []Func {
 		f.Info = false
 		out = append(out, f)
 	}
+	// a share of the parameter objects get an unexported field (ignored by
+	// dig on request): only declared functions can have one
+	var hide func(ps []Param)
+	hide = func(ps []Param) {
+		for i := range ps {
+			if ps[i].Kind == PObj {
+				if r.P(0.2) {
+					ps[i].Hidden = 1 + r.Intn(len(ps[i].Fields)+1)
+				}
+				hide(ps[i].Fields)
+			}
+		}
+	}
 	for i := range out {
 		out[i].ID = i
 		out[i].Cat = i
 		out[i].DurNs = 0
+		hide(out[i].Params)
 	}
 	return out
 }
@@ -105,8 +119,15 @@ func (w *catWriter) paramGoType(fn int, p Param, path string) string {
 	}
 	name := fmt.Sprintf("CatIn%d_%s", fn, path)
 	var sb strings.Builder
-	fmt.Fprintf(&sb, "type %s struct {\n\tdig.In\n", name)
+	if p.Hidden > 0 {
+		fmt.Fprintf(&sb, "type %s struct {\n\tdig.In `ignore-unexported:\"true\"`\n", name)
+	} else {
+		fmt.Fprintf(&sb, "type %s struct {\n\tdig.In\n", name)
+	}
 	for i, f := range p.Fields {
+		if p.Hidden == i+1 {
+			fmt.Fprintf(&sb, "\thidden%d *K0\n", i)
+		}
 		tag := string(paramTag(f))
 		ft := w.paramGoType(fn, f, fmt.Sprintf("%s_%d", path, i))
 		if tag != "" {
@@ -114,6 +135,9 @@ func (w *catWriter) paramGoType(fn int, p Param, path string) string {
 		} else {
 			fmt.Fprintf(&sb, "\tF%d %s\n", i, ft)
 		}
+	}
+	if p.Hidden > len(p.Fields) {
+		sb.WriteString("\thiddenLast *K0\n")
 	}
 	sb.WriteString("}\n\n")
 	w.types.WriteString(sb.String())
